@@ -679,3 +679,66 @@ func ErrClass(err error) string {
 	}
 	return s
 }
+
+// ReadFuzzInput parses a Go native-fuzz corpus file ("go test fuzz v1") into its
+// argument values (string, int, []byte), so that a crasher found by `-fuzz` can be
+// pushed through the same Judge / replay path as every other lane.
+func ReadFuzzInput(path string) ([]any, error) {
+	data, err := os.ReadFile(path)
+	if err != nil {
+		return nil, err
+	}
+	lines := strings.Split(strings.TrimRight(string(data), "\n"), "\n")
+	if len(lines) == 0 || !strings.HasPrefix(lines[0], "go test fuzz v1") {
+		return nil, fmt.Errorf("%s: not a go fuzz corpus file", path)
+	}
+	var out []any
+	for _, ln := range lines[1:] {
+		ln = strings.TrimSpace(ln)
+		switch {
+		case strings.HasPrefix(ln, "string(") && strings.HasSuffix(ln, ")"):
+			s, err := strconv.Unquote(ln[len("string(") : len(ln)-1])
+			if err != nil {
+				return nil, fmt.Errorf("%s: %q: %w", path, ln, err)
+			}
+			out = append(out, s)
+		case strings.HasPrefix(ln, "[]byte(") && strings.HasSuffix(ln, ")"):
+			s, err := strconv.Unquote(ln[len("[]byte(") : len(ln)-1])
+			if err != nil {
+				return nil, fmt.Errorf("%s: %q: %w", path, ln, err)
+			}
+			out = append(out, []byte(s))
+		case strings.HasPrefix(ln, "int(") && strings.HasSuffix(ln, ")"):
+			n, err := strconv.Atoi(ln[len("int(") : len(ln)-1])
+			if err != nil {
+				return nil, fmt.Errorf("%s: %q: %w", path, ln, err)
+			}
+			out = append(out, n)
+		case ln == "":
+		default:
+			return nil, fmt.Errorf("%s: unsupported corpus line %q", path, ln)
+		}
+	}
+	return out, nil
+}
+
+// FuzzInputs returns the corpus files named by VERIF_FUZZ_INPUT (colon separated).
+func FuzzInputs() []string {
+	v := os.Getenv("VERIF_FUZZ_INPUT")
+	if v == "" {
+		return nil
+	}
+	return strings.Split(v, ":")
+}
+
+// KnownOpen returns the keys of the open findings of a property (fuzz targets skip
+// them so that the campaign continues behind a recorded finding).
+func KnownOpen(prop string) map[string]bool {
+	known := map[string]bool{}
+	for _, kf := range LoadFindings(RootDir()) {
+		if kf.Property == prop && kf.Status == "open" {
+			known[kf.Key] = true
+		}
+	}
+	return known
+}
